@@ -312,7 +312,7 @@ where
                 return Err(DcgkaError::NotOurDirectMessage(y.my_id, recipient));
             }
 
-            return Self::process_welcome(y, sender, ciphertext, history);
+            return Self::process_welcome(y, sender, seq, ciphertext, history);
         }
 
         Ok((y, GroupSecretOutput::None))
@@ -323,10 +323,16 @@ where
     fn process_welcome(
         mut y: DcgkaState<ID, OP, PKI, DGM, KMG>,
         sender: ID,
+        seq: OP,
         ciphertext: TwoPartyMessage,
         history: DGM::State,
     ) -> DcgkaProcessResult<ID, OP, PKI, DGM, KMG> {
         y.dgm = DGM::from_welcome(y.my_id, history).map_err(|err| DcgkaError::DgmOperation(err))?;
+
+        // The received state is the one of the adding member from before the "add" took place, it
+        // doesn't contain ourselves yet.
+        y.dgm = DGM::add(y.dgm, sender, y.my_id, seq)
+            .map_err(|err| DcgkaError::DgmOperation(err))?;
 
         let (y_i, bundle) = {
             let (y_i, plaintext) = Self::decrypt_from(y, &sender, ciphertext)?;
